@@ -93,6 +93,9 @@ ATOMS: List[Atom] = [
     Atom("comment_triple_quote", defs="// contains \"\"\" a triple quote\nmessage Tq { int32 a = 1; }", fields=("Tq tq",)),
     Atom("deprecated", defs="message OldMsg { option deprecated = true; int32 a = 1; }\nmessage HalfOld { int32 keep = 1; int32 gone = 2 [deprecated = true]; }",
          fields=("OldMsg old", "HalfOld half")),
+    Atom("deprecated_renamed", defs=("message DepNames { int32 displayName = 1 [deprecated = true]; string from = 2 [deprecated = true]; "
+                                     "bool Plain_Old = 3 [deprecated = true]; int32 keep = 4; repeated int32 manyOld = 5 [deprecated = true]; }"),
+         fields=("DepNames dep_names",)),
     Atom("oneof_mixed", body=(
         "  oneof choice {{ int32 c_int = {n0}; string c_str = {n1}; Host c_self = {n2}; bool c_flag = {n3}; }}\n"
         "  oneof other_choice {{ bytes oc_bytes = {n4}; double oc_double = {n5}; }}\n"), nfields_body=6),
